@@ -1,10 +1,11 @@
 """C04 — combinational settling is complete and independent of construction order.
 Proof:  Properties/C04.v (sorter: sound / terminates on every ranked graph / cycles >= 2 refused; propagateAll over an
         ordered single-driver list reaches the unique fixpoint, order independence, sorter+evaluation end to end;
-        two refuted clauses: self-loop accepted, pass limit refuses long reversed chains).
+        every cyclic netlist, self-feeding leaves included, refused; one refuted clause: the pass limit refuses long
+        sink-first chains).
 Tie:    real py4hw netlists (random DAGs / cyclic graphs / register-broken loops / late additions / all small labelled
         digraphs) instantiated in adversarial orders; Model/Sort.v's result must equal Simulator.propagatables ELEMENT FOR
-        ELEMENT (or None <-> the documented raise); Model/SimKernel.v + regenerated leaf functions must reproduce every
+        ELEMENT (LimitError / LoopError x <-> the two documented exceptions, same leaf named); Model/SimKernel.v + regenerated leaf functions must reproduce every
         wire value; the dumped design must satisfy the theorems' hypotheses (orderedb, single driver) and every row read
         from the real simulator must satisfy Spec.C04.settledb.
 Oracle: denotational value of every wire by recursion on the DAG (own semantics of the blocks) vs Wire.get()."""
@@ -14,7 +15,6 @@ from common import quiet
 from props import c04_net as N
 
 LIMIT = 1000
-REFUSAL = 'Excessive loop count'
 SORT_PRELUDE = 'From Coq Require Import List Arith.\nImport ListNotations.\nFrom V Require Import Model.Sort.\nOpen Scope nat_scope.\n'
 KERNEL_PRELUDE = netlist.PRELUDE + 'From V Require Import Spec.C04.\n'
 
@@ -47,17 +47,20 @@ def exercise(spec, rng=None, n_steps=0, want_dump=False, fixed_steps=None):
         impl = net.get_simulator()
         res['sort_cases'].append((tbl, impl))
         if impl[0] == 'raise':
-            if REFUSAL not in impl[1]:
-                res['problems'].append(('exception', 'getSimulator raised something other than the documented refusal', {'exception': impl[1]}))
+            if impl[2] == 'other':
+                res['problems'].append(('exception', 'getSimulator raised something other than the two documented refusals', {'exception': impl[1]}))
+            elif impl[2] == 'loop' and not (0 <= impl[3] < n and impl[3] in tbl_spec[impl[3]]):
+                res['problems'].append(('exception', 'the loop error names a block that does not drive its own input', {'exception': impl[1], 'leaf': impl[3], 'succ': tbl_spec}))
             elif truth == 'dag':
-                if n > LIMIT: res['notes'].append('passlimit')
+                if impl[2] == 'limit' and n > LIMIT: res['notes'].append('passlimit')
                 else: res['problems'].append(('refused', 'an acyclic netlist was refused', {'exception': impl[1]}))
             return res
         if truth == 'cycle2':
             res['problems'].append(('accepted', 'a netlist with a combinational cycle through leaves %s was accepted' % detail, {'propagatables': impl[1]}))
             return res
         if truth == 'selfloop':
-            res['notes'].append('selfloop'); return res
+            res['problems'].append(('accepted', 'a netlist in which leaf %s drives its own input was accepted (finding C04-selfloop, fixed in /repo 04873f4, is back)' % detail, {'propagatables': impl[1]}))
+            return res
         if not N.is_strict_topo(tbl_spec, impl[1]):
             res['problems'].append(('order', 'Simulator.propagatables is not a topological order of the leaf dependencies', {'propagatables': impl[1], 'succ': tbl_spec}))
         present = [it[1] for it in net.done if it[0] == 'n']
@@ -123,15 +126,19 @@ def nat_tbl(tbl):
 
 
 def model_sort(tag, tbls):
-    """Model/Sort.v topologicalSort on each table: list of None | [leaf indices]"""
+    """Model/Sort.v topologicalSort on each table: ('sorted', [leaf indices]) | ('loop', leaf) | ('limit', None)"""
     out = []
     for a in range(0, len(tbls), 1500):
         chunk = tbls[a:a + 1500]
         r = coq_eval('%s_%d' % (tag, a // 1500), SORT_PRELUDE,
-                            [('all', 'map topologicalSort [' + ';\n '.join(nat_tbl(t) for t in chunk) + ']')], timeout=900)
-        for v in r['all']:
-            out.append(None if v is None else v[1])
+                            [('all', 'map (fun t => encode (topologicalSort t)) [' + ';\n '.join(nat_tbl(t) for t in chunk) + ']')], timeout=900)
+        for code, lst in r['all']:
+            out.append(('sorted', lst) if code == 0 else ('loop', lst[0]) if code == 1 else ('limit', None))
     return out
+
+
+def pokes_term(dp):
+    return '[' + '; '.join('(%d%%nat, %s)' % (w, common.zlit(v)) for w, v in getattr(dp, 'init_pokes', [])) + ']'
 
 
 def model_kernel(tag, dumps):
@@ -145,7 +152,7 @@ def model_kernel(tag, dumps):
         exp = '[' + '; '.join(common.zlist(v) for v in [start_vals] + rows) + ']'
         items.append(('r%d' % i, '(first_diff %s (run_trace d%d %s %s), forallb (settledb d%d) %s, orderedb (combs d%d) && nodupb (flat_map c_out (combs d%d)), %s)' % (
             exp, i, st, netlist.steps_term(steps), i, exp if single else '[' + '; '.join(common.zlist(v) for v in rows) + ']', i, i,
-            ('list_eqb (vals (init d%d d%d_st0)) %s' % (i, i, common.zlist(start_vals))) if single else 'true')))
+            ('list_eqb (vals (init_poked d%d d%d_st0 %s)) %s' % (i, i, pokes_term(dp), common.zlist(start_vals))) if single else 'true')))
     return coq_eval(tag, '\n'.join(body), items, timeout=900)
 
 
@@ -173,12 +180,6 @@ class Sweep:
             ctx.violation({'what': text, 'clause': kind, 'netlist': spec, 'detail': detail, 'case': label, 'steps(pokes by input, clk)': r.get('steps', []),
                            'replay_hint': './check --replay <this file> rebuilds the netlist on the real simulator and re-evaluates the oracle'})
             break
-        if 'selfloop' in r['notes']:
-            if known(ctx, 'C04-selfloop'):
-                ctx.known_finding('C04-selfloop', 'a leaf that feeds itself is accepted by Simulator.topologicalSort (pos < i is false for pos == i); e.g. %s' % label)
-            else:
-                self.violated = True
-                ctx.violation({'what': 'a netlist with a leaf feeding itself was accepted', 'clause': 'accepted', 'netlist': spec, 'case': label})
         if 'passlimit' in r['notes']:
             if known(ctx, 'C04-passlimit'):
                 ctx.known_finding('C04-passlimit', 'an acyclic netlist of %d leaves instantiated sink-first is refused: the 1000-pass limit is hit (one pass per leaf is needed)' % r['n'])
@@ -198,12 +199,15 @@ class Sweep:
         got = model_sort(tag + '_sort', [t[2] for t in todo]) if todo else []
         ctx.log('%s: %d sorter cases evaluated by Model/Sort.v' % (tag, len(todo)))
         nm = 0
+        oc = ctx.notes.setdefault('model_outcomes', {'sorted': 0, 'loop': 0, 'limit': 0})
         for (label, spec, tbl, impl), m in zip(todo, got):
-            same = (m is None and impl[0] == 'raise' and REFUSAL in impl[1]) or (m is not None and impl[0] == 'ok' and m == impl[1])
+            oc[m[0]] += 1
+            same = ((m[0] == 'sorted' and impl[0] == 'ok' and m[1] == impl[1]) or (m[0] == 'limit' and impl[0] == 'raise' and impl[2] == 'limit')
+                    or (m[0] == 'loop' and impl[0] == 'raise' and impl[2] == 'loop' and impl[3] == m[1]))
             if not same:
                 nm += 1
                 self.tie_broken = self.tie_broken or {'what': 'Model/Sort.v and Simulator.topologicalSort disagree', 'case': label, 'succ': tbl,
-                                                      'model': m, 'impl': list(impl), 'netlist': spec}
+                                                      'model': list(m), 'impl': list(impl), 'netlist': spec}
         ctx.notes.setdefault('sort_cases_compared_with_model', 0); ctx.notes['sort_cases_compared_with_model'] += len(todo)
         dumps = [(label, spec, r['dump']) for label, spec, r in self.cases if r['dump']]
         for a in range(0, len(dumps), 40):
@@ -266,7 +270,7 @@ def special_cases(ctx, sw, quick):
     for n in (2, 7, 40):
         sw.add('reversed chain of %d Buf' % n, N.chain(n), rng, n_steps=2, want_dump=(n <= 7))
         sw.add('forward chain of %d Buf' % n, N.chain(n, reverse=False), rng, n_steps=1)
-    # a self-looping And2 beside a clean leaf; an inverter feeding itself
+    # a self-looping And2 beside a clean leaf; an inverter feeding itself: must be refused (C04-selfloop, fixed in 04873f4)
     s1 = {'inputs': [1], 'nodes': [{'kind': 'and2', 'ins': [['i', 0], ['n', 0, 0]], 'outs': [1], 'const': 0},
                                    {'kind': 'not', 'ins': [['i', 0]], 'outs': [1], 'const': 0}], 'regs': [], 'order': [['n', 0], ['n', 1]], 'split': None}
     s2 = {'inputs': [1], 'nodes': [{'kind': 'not', 'ins': [['n', 0, 0]], 'outs': [1], 'const': 0}], 'regs': [], 'order': [['n', 0]], 'split': None}
